@@ -557,3 +557,189 @@ def build_recover(pid, tier):
                        descr='recovery declaration: only with the fee debt repaid in full (burnt); no power credited; other ledgers untouched',
                        bounds='one declaration; CUTS: parameter map, deadline / sector loading, Deadline::declare_faults_recovered, declaration-window check (arbitrary verdict); sends succeed',
                        max_paths=100000, wall_s=300)]
+
+
+# ---- submit_windowed_post: power changes exactly as the recorded proof says, only for the open deadline ----------------------
+# CUTS (declared): Sectors::load / load_for_proof, State::load_deadlines / save_deadlines, Deadlines::load_deadline /
+# update_deadline, Deadline::record_proven_sectors (arbitrary PoStResult, recorded; its own content is decided in C02's
+# deadline-level obligation), Deadline::record_post_proofs, verify_windowed_post (arbitrary verdict), the proof-type
+# tables, chain randomness (uninterpreted) and its comparison with the submitted value (arbitrary).
+
+def run_wpost(E):
+    rt, rtref = new_rt(E)
+    pre = mk_miner_state(E, 0)
+    rt.state = pre['st']
+    E.ctx.assume(rt.balance >= pre['pcd'] + pre['lf'] + pre['ip'])
+    E.ctx.assume(z3.And(rt.epoch >= 0, rt.epoch < 2**40))
+    E.ctx.assume(z3.Not(C13.bz(C13.view(E, pre['info'])['pw_some'])))
+    env = E.ctx.env
+    ST = SF()
+    pps = fget(E, pre['st'], ST['proving_period_start'], 'i64').v
+    cdl = fget(E, pre['st'], ST['current_deadline'], 'u64').v
+    E.ctx.assume(z3.And(pps > -2880, pps < 2**40, cdl < 48))
+    env.update(dict(pps=pps, cdl=cdl, balance0=rt.balance))
+    # CUT (declared): State::deadline_info -> the current deadline as decided by the clock obligation
+    # (miner.State::deadline_info [clock]): window index in [0,48), open <= epoch < close = open + 60, challenge = open - 20,
+    # fault cutoff = open - 70, period start = open - 60 * index
+    DI = Fields('actors/miner/src/deadline_info.rs', 'DeadlineInfo')
+
+    def cut_di(E2, c):
+        idx, op = z3.Int('clock.window'), z3.Int('clock.open')
+        E2.ctx.assume(z3.And(idx >= 0, idx < 48, op <= rt.epoch, rt.epoch < op + 60, op > -2**41, op - 60 * idx >= -2880))
+        env.update(dict(di_index=idx, di_open=op))
+        I = lambda v, ty='i64': IntV(v, ty)
+        return StructV('deadline_info::DeadlineInfo', {DI['current_epoch']: I(rt.epoch), DI['period_start']: I(op - 60 * idx), DI['index']: I(idx, 'u64'), DI['open']: I(op),
+                                                       DI['close']: I(op + 60), DI['challenge']: I(op - 20), DI['fault_cutoff']: I(op - 70),
+                                                       DI['w_post_period_deadlines']: I(48, 'u64'), DI['w_post_proving_period']: I(2880), DI['w_post_challenge_window']: I(60),
+                                                       DI['w_post_challenge_lookback']: I(20), DI['fault_declaration_cutoff']: I(70)})
+    E.cuts['State::deadline_info'] = cut_di
+    from .C13 import _f
+    MIf = _f()[1]
+    # representation invariant of MinerInfo (set once from the proof-type table by MinerInfo::new): partitions have sectors
+    E.ctx.assume(fget(E, pre['info'], MIf['window_post_partition_sectors'], 'u64').v > 0)
+    lz = lambda nm, ty: (lambda E2, c: ok(LazyV(nm, ty), c.dest_ty))
+    okc = lambda E2, c: ok(UNIT, c.dest_ty)
+    E.cuts['Sectors::load'] = lz('sectors', 'sectors::Sectors')
+    E.cuts['Sectors::load_for_proof'] = lambda E2, c: ok(VecV([], 'Vec<SectorOnChainInfo>'), c.dest_ty)
+    E.cuts['State::load_deadlines'] = lz('deadlines', 'deadlines::Deadlines')
+    E.cuts['State::save_deadlines'] = okc
+    E.cuts['Deadlines::load_deadline'] = lz('dl', 'deadline_state::Deadline')
+    E.cuts['Deadlines::update_deadline'] = okc
+    E.cuts['check_valid_post_proof_type'] = lambda E2, c: (ok(UNIT, c.dest_ty) if E2.ctx.branch(z3.Bool('post_proof_type_allowed')) else err(models_fvm.actor_error(E2, 16), c.dest_ty))
+    PR = Fields('actors/miner/src/deadline_state.rs', 'PoStResult')
+
+    def cut_record(E2, c):
+        pd = (z3.Int('post.power_delta.raw'), z3.Int('post.power_delta.qa'))
+        rec = (z3.Int('post.recovered.raw'), z3.Int('post.recovered.qa'))
+        E2.ctx.assume(z3.And(rec[0] >= 0, rec[1] >= 0))
+        env['post'] = dict(pd=pd, rec=rec)
+        proven_any = E2.ctx.fresh_bool('post.proves_something')
+        secs = models_fvm.BitFieldV('post.sectors')
+        ign = models_fvm.BitFieldV('post.ignored')
+        E2.ctx.memo[('subset', 'post.ignored', 'post.sectors')] = True
+        E2.ctx.assume(z3.And(z3.Int('post.sectors#card') >= z3.Int('post.ignored#card'), z3.Int('post.ignored#card') >= 0))
+        zero = _pp(z3.IntVal(0), z3.IntVal(0))
+        res = StructV('deadline_state::PoStResult', {PR['power_delta']: _pp(*pd), PR['new_faulty_power']: _pp(z3.Int('post.nf.raw'), z3.Int('post.nf.qa')),
+                                                    PR['retracted_recovery_power']: _pp(z3.Int('post.rr.raw'), z3.Int('post.rr.qa')), PR['recovered_power']: _pp(*rec),
+                                                    PR['sectors']: secs, PR['ignored_sectors']: ign, PR['partitions']: models_fvm.BitFieldV('post.partitions')})
+        return ok(res, c.dest_ty)
+    E.cuts['Deadline::record_proven_sectors'] = cut_record
+
+    def cut_rpp(E2, c):
+        env['optimistic'] = True
+        return ok(UNIT, c.dest_ty)
+    E.cuts['Deadline::record_post_proofs'] = cut_rpp
+
+    def cut_verify(E2, c):
+        b = E2.ctx.fresh_bool('proof_valid')
+        env['verified'] = b
+        return ok(b, c.dest_ty)
+    E.cuts['verify_windowed_post'] = cut_verify
+    E.cuts['<Randomness as PartialEq>::ne'] = lambda E2, c: E2.ctx.fresh_bool('randomness_mismatch')
+    E.cuts['<Randomness as PartialEq>::eq'] = lambda E2, c: E2.ctx.fresh_bool('randomness_match')
+    from .miner_money import install_bib_cut
+    install_bib_cut(E)
+    rt.send_hook = lambda E2, rt2, rec, nm: ('ok', None)
+    WP = Fields('actors/miner/src/types.rs', 'SubmitWindowedPoStParams')
+    dl = E.materialize('u64', 'params.deadline')
+    cce = E.materialize('i64', 'params.chain_commit_epoch')
+    proof = LazyV('proof0', 'fvm_shared::sector::PoStProof')
+    part = StructV('types::PoStPartition', {0: E.materialize('u64', 'part0.index'), 1: models_fvm.BitFieldV('part0.skipped')})
+    params = StructV('types::SubmitWindowedPoStParams', {WP['deadline']: dl, WP['partitions']: VecV([part], 'Vec<PoStPartition>'), WP['proofs']: VecV([proof], 'Vec<PoStProof>'),
+                                                         WP['chain_commit_epoch']: cce, WP['chain_commit_rand']: StructV('fvm_shared::randomness::Randomness', {0: models_fvm.SymBytes('commit_rand')})})
+    env.update(dict(pdl=dl.v, cce=cce.v))
+    fn = find_fn(E, MINER, 'submit_windowed_post')
+    return E.run_function(fn, [rtref, params]), rt
+
+
+def props_wpost(E, res):
+    from .miner_money import bib_prop
+    env = res.ctx.env
+    rt, pre = env['rt'], env['pre']
+    ctx = res.ctx
+    if res.kind != 'return':
+        return [tagged('ALL', 'no panic (%s)' % str(res.info)[:60], False)]
+    if is_err(res.value):
+        return [bib_prop(res), tagged('C02', 'a refused proof commits nothing and changes no power', z3.BoolVal(rt.commits == 0 and len(rt.sends) == 0))]
+    post = env.get('post')
+    if post is None:
+        return [tagged('C02', 'an accepted proof was recorded in its deadline', False)]
+    P = []
+    ups = [s for s in rt.sends if implied(ctx, b_and(s.to.key == POWER, zv(s.method) == UPDATE_CLAIMED_POWER))]
+    zero_delta = z3.And(post['pd'][0] == 0, post['pd'][1] == 0)
+    if ups:
+        s = ups[0]
+        obj = s.params.obj if isinstance(s.params, BlockV) else None
+        if obj is None:
+            P.append(tagged('C02', 'the power update carries typed params', False))
+        else:
+            P.append(tagged('C02', "the miner's claim moves by exactly the power delta of the recorded proof (one update)",
+                            b_and(len(ups) == 1, big(E, fget(E, obj, 0, 'BigInt')) == post['pd'][0], big(E, fget(E, obj, 1, 'BigInt')) == post['pd'][1])))
+    else:
+        P.append(tagged('C02', 'no power update is sent only when the recorded proof changes no power', zero_delta))
+    # only the open deadline, with a commit epoch inside its challenge window
+    # the open deadline is a function of the proving-period offset and the clock alone (48 windows of 60 epochs per 2880-epoch period)
+    if 'di_index' not in env:
+        return [tagged('C02', 'an accepted proof was checked against the deadline clock', False)]
+    P.append(tagged('C02', 'a proof is accepted only for the deadline whose window contains the current epoch', env['pdl'] == env['di_index']))
+    P.append(tagged('C02', 'the proof commits to a chain epoch inside the challenge look-back of that window and before now', z3.And(env['cce'] >= env['di_open'] - 20, env['cce'] < rt.epoch)))
+    rec_zero = z3.And(post['rec'][0] == 0, post['rec'][1] == 0)
+    ver = env.get('verified')
+    if env.get('optimistic'):
+        P.append(tagged('C02', 'a proof is accepted optimistically only when it recovers no power', rec_zero))
+    else:
+        P.append(tagged('C02', 'a proof that recovers power is verified at once and is valid', z3.And(z3.Not(rec_zero), ver) if ver is not None else False))
+    led = ledgers(E, rt.state)
+    P.append(tagged('C03', 'a proof moves no collateral', z3.And(led['ip'] == pre['ip'], led['pcd'] == pre['pcd'], led['lf'] == pre['lf'], led['fd'] == pre['fd'])))
+    return P
+
+
+def build_wpost(pid, tier):
+    wrap = lambda f: (lambda E, res: for_property(pid, f(E, res)))
+    return [Obligation('miner.submit_windowed_post', run_wpost, wrap(props_wpost),
+                       descr="Window PoSt: accepted only for the open deadline with a commit epoch in its challenge window; the claim moves by exactly the recorded proof's power delta; recovering proofs are verified at once, others accepted optimistically; no collateral moves",
+                       bounds='one proof, one partition; CUTS: State::deadline_info (contract decided by the clock obligation), deadline / sector loading, record_proven_sectors (arbitrary result), proof verification (arbitrary verdict), proof-type tables, randomness comparison; sends succeed',
+                       max_paths=200000, wall_s=600)]
+
+
+# ---- the deadline clock: State::deadline_info as a function of (proving-period offset, epoch) ---------------------------------
+
+def run_clock(E):
+    rt, rtref = new_rt(E)
+    ST = SF()
+    st = StructV('State', {}, lazy='st')
+    pps = fget(E, st, ST['proving_period_start'], 'i64').v
+    # clock in the oracle's coordinates (a change of variables, see run_wpost): every (pps, epoch) has exactly one decomposition
+    pa, pb = z3.Int('clock.pps_period'), z3.Int('clock.pps_offset')
+    k, d, m = z3.Int('clock.period'), z3.Int('clock.window'), z3.Int('clock.into_window')
+    E.ctx.assume(z3.And(pps == 2880 * pa + pb, pb >= 0, pb < 2880, pps >= 0, pps < 2**40))
+    E.ctx.assume(z3.And(d >= 0, d < 48, m >= 0, m < 60))
+    epoch = pps + 2880 * k + 60 * d + m
+    E.ctx.assume(z3.And(epoch >= 0, epoch < 2**40))
+    E.ctx.env.update(dict(pps=pps, k=k, d=d, m=m, epoch=epoch))
+    cell = Cell(st, 'st')
+    pol = E.do_call(None, '<Policy as Default>::default', [], 'Policy')
+    fn = find_fn(E, MINER, 'deadline_info', 'state')
+    return E.run_function(fn, [RefV(cell, ()), RefV(Cell(pol, 'policy'), ()), IntV(epoch, 'i64')]), rt
+
+
+def props_clock(E, res):
+    env = res.ctx.env
+    if res.kind != 'return':
+        return [tagged('ALL', 'no panic (%s)' % str(res.info)[:60], False)]
+    DI = Fields('actors/miner/src/deadline_info.rs', 'DeadlineInfo')
+    di = E.deref(res.value)
+    g = lambda f, ty='i64': zv(fget(E, di, DI[f], ty))
+    open_ = env['epoch'] - env['m']
+    return [tagged('C02', 'the current deadline is the window that contains the epoch', g('index', 'u64') == env['d']),
+            tagged('C02', 'it opens at the start of that window and closes 60 epochs later', z3.And(g('open') == open_, g('close') == open_ + 60)),
+            tagged('C02', 'its challenge epoch is 20 epochs before it opens; faults must be declared 70 epochs before', z3.And(g('challenge') == open_ - 20, g('fault_cutoff') == open_ - 70)),
+            tagged('C02', 'its proving period starts at the stored offset plus whole periods', g('period_start') == env['pps'] + 2880 * env['k']),
+            tagged('C02', 'it is evaluated at the given epoch', g('current_epoch') == env['epoch'])]
+
+
+def build_clock(pid, tier):
+    wrap = lambda f: (lambda E, res: for_property(pid, f(E, res)))
+    return [Obligation('miner.State::deadline_info [clock]', run_clock, wrap(props_clock),
+                       descr='the deadline clock as a function of the stored proving-period offset and the epoch: index, open, close, challenge, fault cutoff and period start of the current deadline',
+                       bounds='epochs and offsets in [0, 2^40); default network policy (48 windows of 60 epochs, look-back 20, fault cutoff 70)', max_paths=2000, fresh_solver=True)]
